@@ -1170,6 +1170,10 @@ func (s *Store) GetRelatedAtTime(from *RelatedFrom, limit int) ([]qresult, *Rela
 						// if the last result was deleted, check if there
 						// are any non deleted results for other datasets containing this relation.
 						// dsSpillOver only contains a non-deleted result for a dataset or nothing
+						if prevDeleted {
+							// the dataset of the last key has deleted the relation since its spill-over entry was taken
+							delete(dsSpillOver, prevDatasetID)
+						}
 						for _, dsResult := range dsSpillOver {
 							results = append(results, dsResult)
 							break
